@@ -1,17 +1,21 @@
 // agg: C06 in-process conformance driver.
 //
-//	vdrive agg      -out trace.ndjson -runs N [-engine E]
+//	vdrive agg      -out trace.ndjson -runs N [-engine E] [-cancel C] [-dropstress S]
 //	vdrive aggcases -in cases.ndjson -out obs.ndjson
 //
 // `agg` drives the REAL netsample.NewPhout (on an afero mem file) and the REAL
 // aggregator.NewJSONLinesAggregator (on a buffer sink) with K goroutines, seeded samples, queue sizes,
 // flush intervals and a cancel at a seeded instant after the last report, and records what happened:
 //
-//	Run{run,kind,ids,k,q,flush_ms,via}   Report{run,g,i,s}   Cancel{run}
+//	Run{run,kind,ids,k,q,flush_ms,via,mode}   Report{run,g,i,s} | Reports{run,g,n,s}
+//	Cancel{run[,returned_before]}
 //	Line{run,c:[13 strings]} | JLine{run,s} | BadLine{run,raw}    (as the sink receives complete lines)
-//	SinkClosed{run,partial}   RunEnd{run,err,dropped,timeout}   Content{run,lines,partial}
+//	SinkClosed{run,partial}   RunEnd{run,err,dropped,timeout}   Content{run,lines,partial}   EngineEnd{run,err,timeout}
 //
-// `-engine E` adds E full engine.Engine runs with the real aggregators behind mock guns.
+// Modes of a direct run: normal; late (Run starts after the reports and the cancel); burst (all goroutines
+// fire at once); dropstress (thousands of concurrent drops).  `-engine E` adds E full engine.Engine runs
+// with the real aggregators behind mock guns that end by themselves, `-cancel C` engine runs that are
+// cancelled from outside at a seeded instant mid-run (then Engine.Wait()).
 // The driver only RECORDS (a strict syntactic line splitter is the trusted base); TraceAggregator.tla decides.
 //
 // `aggcases` renders TLC-generated abstract samples (spec/PhoutCases.tla) through the real phout
